@@ -1,10 +1,10 @@
 import ViaGen.RL
 /-
-  The tie between the model and the C++ of `request_line::parse_char`, checked by the kernel on every run:
-  `ViaGen/RL.lean` is the translation of the function as it is in /repo NOW (tools/cxx2lean.py); the theorem below
-  states that the hand-written model `RL.parseChar` — the function all property theorems are about — computes the
-  same new state and the same returned bool for EVERY configuration, state and byte.  A change to the C++ that alters
-  the function's behaviour makes this stop checking.
+  The tie between the model and the C++ of `request_line::parse_char` and `request_line::parse`, checked by the kernel on every run:
+  `ViaGen/RL.lean` is the translation of the two functions as they are in /repo NOW (tools/cxx2lean.py); the theorems
+  below state that the hand-written model functions `RL.parseChar` and `RL.parse` — the functions all property theorems
+  are about — compute the same new state, the same remaining input and the same returned bool for EVERY configuration,
+  state and input.  A change to the C++ that alters the behaviour of one of them makes this stop checking.
 -/
 namespace Via
 
@@ -13,5 +13,27 @@ theorem RL_parseChar_translated (cfg : Cfg) (s : RL) (c : Byte) : GenRL.parseCha
   cases st <;> first
     | rfl
     | (simp only [GenRL.parseChar, RL.parseChar]; repeat' split) <;> simp_all
+
+/-- the translated loop (with the code after the loop inlined at its exits) against the model's loop + epilogue -/
+theorem RL_parseLoop_translated (cfg : Cfg) (buf : Bytes) : ∀ s : RL,
+    GenRL.parseLoop cfg s buf =
+      (let r := RL.loop cfg s buf
+       if r.2.2 then (r.1, r.2.1, false)
+       else ({ r.1 with valid := r.1.st == .valid }, r.2.1, r.1.st == .valid)) := by
+  induction buf with
+  | nil => intro s; simp [GenRL.parseLoop, RL.loop]
+  | cons c cs ih =>
+    intro s
+    unfold GenRL.parseLoop RL.loop
+    by_cases hv : s.st = .valid
+    · simp [hv]
+    · simp only [bne_iff_ne, ne_eq, hv, not_false_eq_true, ↓reduceIte, beq_iff_eq, RL_parseChar_translated]
+      cases hr : (RL.parseChar cfg s c).2
+      · simp
+      · simp [ih]
+
+theorem RL_parse_translated (cfg : Cfg) (s : RL) (buf : Bytes) : GenRL.parse cfg s buf = RL.parse cfg s buf := by
+  unfold GenRL.parse RL.parse
+  rw [RL_parseLoop_translated]
 
 end Via
